@@ -72,10 +72,10 @@ def r17_1(ctx):
     pv2 = Fl.Prov(lib, extra_transparent=ABSPATH_VIEWS, transparent_fn=lambda t: C.callee_name(t) == "txtpp::fs::path::normalize_path")
     n = 0
     for s in fs_inventory(ctx):
-        if s.prog.label != "lib" or s.kind != "call" or s.name not in PATH_ARG:
+        if s.prog.label != "lib" or s.kind != "call" or getattr(s, "path_arg", None) is None:
             continue
         n += 1
-        leaves = pv2.leaves(s.body, s.obj["args"][PATH_ARG[s.name]])
+        leaves = pv2.leaves(s.body, s.obj["args"][s.path_arg])
         bad = [l for l in leaves if l.kind == "call" and is_base_relative(l.data)]
         if bad:
             ctx.violation([s.key(), "base-relative-path"], "%s receives a base-relative rendering of an AbsPath (%s)" % (s.name, bad[0].describe()),
